@@ -99,7 +99,15 @@ def is_inf(x) -> bool:
 def timed_check(solver, seconds):
     """solver.check() with a hard wall-clock limit; returns 'sat' | 'unsat' | 'unknown'."""
     import threading
-    timer = threading.Timer(max(0.05, seconds), solver.ctx.interrupt)
+    done = threading.Event()
+    ctx = solver.ctx   # NOT the solver: its last reference must never be dropped in the timer thread
+                       # (z3 reference counting is not thread-safe; doing so crashed libz3)
+
+    def fire():
+        # a timer that fires after check() returned would cancel the NEXT z3 call (`push canceled`)
+        if not done.is_set():
+            ctx.interrupt()
+    timer = threading.Timer(max(0.05, seconds), fire)
     timer.daemon = True
     timer.start()
     try:
@@ -107,6 +115,7 @@ def timed_check(solver, seconds):
     except z3.Z3Exception:
         r = "unknown"
     finally:
+        done.set()
         timer.cancel()
     return r
 
